@@ -209,18 +209,29 @@ class Result:
         os.makedirs(evdir, exist_ok=True)
         with open(os.path.join(evdir, f"{self.prop}.json"), "w") as f:
             json.dump(ev, f, indent=1, default=str)
-        if self.engine_errors:
-            for e in self.engine_errors[:10]:
-                self.say(f"ENGINE-ERROR {e}")
-            return EXIT_ENGINE
+        for e in self.engine_errors[:10]:
+            self.say(f"ENGINE-ERROR {e}")
         if self.violations:
+            # a refuted obligation / a failing input stands whatever else went wrong in the run
             return EXIT_VIOLATION
+        if self.engine_errors:
+            return EXIT_ENGINE
         if self.undecided:
             for u in self.undecided[:10]:
                 self.say(f"UNDECIDED {u}")
             return EXIT_UNDECIDED
         self.say(f"OK property={self.prop} tier={self.tier} wall={wall:.1f}s")
         return EXIT_HELD
+
+
+def tierb_json(p: subprocess.CompletedProcess, R=None, what: str = "tier-B") -> Dict[str, Any]:
+    """Output of a bounded stand-in; a harness that died (traceback, no JSON) is an engine error, never a verdict."""
+    try:
+        return json.loads(p.stdout)
+    except (ValueError, TypeError):
+        if R is not None:
+            R.engine_errors.append(f"{what} harness crashed (exit {p.returncode}): " + (p.stderr or "")[-300:])
+        return {}
 
 
 def run_venv(script: str, args: List[str], stdin: Optional[str] = None, timeout=3600) -> subprocess.CompletedProcess:
